@@ -292,6 +292,10 @@ type OrderCase struct {
 }
 
 func judgeOrder(c *OrderCase, reps int) (sig, detail string) {
+	return interp.Guard(func() (string, string) { return judgeOrderRaw(c, reps) }, func() { vt.Discard("an evaluation of this case ran out of its budget (inconclusive)") })
+}
+
+func judgeOrderRaw(c *OrderCase, reps int) (sig, detail string) {
 	prog, err := interp.Parse(orderPrelude + c.Src)
 	if err != nil {
 		return "harness:order-program-does-not-parse", c.Src + ": " + err.Error()
@@ -531,6 +535,10 @@ func genRepro(t *rapid.T) ReproCase {
 		"JSON.dec(`{" + strings.Join(js, ", ") + "}`).p", "JSON.dec(`{" + strings.Join(js, ", ") + "}`).keys.p", "o.S.p", "o.map {|k, v| v}.p", "m.map {|k, v| v}.p",
 		"o.items.O.p", "m.items.M.keys.p", "o.select {|k, v| v > 2}.p", "[*o.keys, *m.keys].p", "f(a: 1, k1: 2, zz2: 3, a: 4).p", "{a: 1, a: 2, b: 3, b: 4}.p", "%{[1]: 1, [1]: 2, 1: 3, 1.0: 4, 1: 5}.p",
 		"<>.next.p", "(o.keys == o.keys).p", "o.values.sum.p",
+		"JSON.dec(`{\"id\": 18446744073709551615, \"big\": -1e19, \"more\": 12345678901234567890123, \"ok\": 1, \"n\": {\"x\": 99999999999999999999, \"y\": -99999999999999999999}}`).p",
+		"1.try.{|x| JSON.dec(`{\"a\": 1e19, \"b\": -1e19, \"c\": [1e30], \"d\": 9223372036854775808}`)}.A.p", "JSON.dec(`{\"a\": 1.5, \"b\": 1e2, \"c\": -0, \"d\": 1E+2, \"e\": null, \"f\": [true, {\"g\": []}]}`).p",
+		// printing functions: their source is re-rendered from the syntax tree (duplicated keyword names must keep their order)
+		"{|| f(a: 1, a: 2, a: 3, b: 4, a: 5)}.p", "{|a: 1, a: 2, zz2: 3, a: 4| a}.S.p", "{m: m{|x, k1: 1, k1: 2| o.m2(x, q: 1, q: 2)}}.p", "[{|x| f(**o, a: 1)}, {|a: 0, k1: 0| \\_}].p", "<{|i, k1: 1, k1: 2| yield i}>.p",
 		"(oq == o).p", "(oq == {**oq}).p", "(mq == %{**mq}).p", "(mq.values == mq.values).p", "([oq] == [o]).p", "(oq != o).p", "(or == o).p", "(o == or).p", "1.try.{|x| or == o}.A.p", "(%{1: or, 2: 5} == %{1: o, 2: 6}).p",
 		"(oq.values == o.values).p", "(%{**oq} == %{**o}).p",
 	}
@@ -663,6 +671,10 @@ type ReadCase struct {
 var lineNo = regexp.MustCompile(`(?i)ln([0-9]+)x`)
 
 func judgeReads(c *ReadCase, reps int) (sig, detail string) {
+	return interp.Guard(func() (string, string) { return judgeReadsRaw(c, reps) }, func() { vt.Discard("an evaluation of this case ran out of its budget (inconclusive)") })
+}
+
+func judgeReadsRaw(c *ReadCase, reps int) (sig, detail string) {
 	stdin := ""
 	for i := 0; i < c.Reads+3; i++ {
 		stdin += fmt.Sprintf("ln%dx\n", i+1)
